@@ -503,10 +503,30 @@ def trace_facet(ctx, workdir):
             ev[gi[-1]]["ids"][0] += 1
         else:
             bump_idx(ev)
+    def wrong_tune(ev):
+        ti = [j for j, e in enumerate(ev) if e["e"] == "tune" and e.get("win") == 1]
+        if ti:
+            ev[ti[-1]]["count"] += 1
+        else:
+            bump_idx(ev)
+
+    def missing_tune(ev):
+        ti = [j for j, e in enumerate(ev) if e["e"] == "tune" and e.get("win") == 1]
+        if ti:
+            del ev[ti[0]]
+        else:
+            drop_cb(ev)
+    tuned = next((t for v, t in zip(verdicts, traces) if v["ok"] and any(e["e"] == "tune" and e.get("win") == 1 for e in t["events"])), None)
+    if tuned is None:
+        raise MachineryError("no accepted trace with a tuning event inside a warm-up window")
+    for nm, mut in (("wrong_tune", wrong_tune), ("missing_tune", missing_tune)):
+        if not trace.corrupt_selftest(ctx, tuned, "TraceSamplerLife", TRACE_CFG, mut, extra_modules=("SamplerLife.tla",)):
+            raise MachineryError("corrupted trace (%s) was accepted: binding is not effective" % nm)
     for nm, mut in (("bump_idx", bump_idx), ("drop_cb", drop_cb), ("alter_entry", alter_entry)):
         if not trace.corrupt_selftest(ctx, good, "TraceSamplerLife", TRACE_CFG, mut, extra_modules=("SamplerLife.tla",)):
             raise MachineryError("corrupted trace (%s) was accepted: binding is not effective" % nm)
-    ctx.observe("binding_selftest", "3 corruptions of an accepted trace rejected (callback index, missing callback, altered entry)")
+    ctx.observe("binding_selftest", "5 corruptions of accepted traces rejected (callback index, missing callback, altered entry, "
+                "wrong tuning counter, missing tuning call)")
     ctx.sample({"trace": good["meta"], "first_events": good["events"][:8]})
 
 
